@@ -35,7 +35,16 @@ def classify(case_line, impl, model):
         rest = body_i[len(hoisted) + 1 if hoisted else 0:]
         if not rest.startswith("if(C||K||" + guard + ")"):
             out.add("guard")
-        setter = ")O(N," + json_str(name) + "," + value
+        setter = {"class": ")L(N," + value, "style": ")R.y(N," + value, "id": ")R.i(N," + value,
+                  "data": ")R.d(N," + json_str(name) + "," + value,
+                  "mark": ")M(N," + json_str(name) + "," + value,
+                  "change": ")R.p(N," + json_str(name) + "," + value,
+                  "ev": ")R.v(N," + json_str(name) + "," + value + ",!1,!1,!1,!0",
+                  "evcatch": ")R.v(N," + json_str(name) + "," + value + ",!0,!1,!1,!0",
+                  "evmut": ")R.v(N," + json_str(name) + "," + value + ",!1,!0,!1,!0",
+                  "evcap": ")R.v(N," + json_str(name) + "," + value + ",!1,!1,!0,!0",
+                  "evcapcatch": ")R.v(N," + json_str(name) + "," + value + ",!0,!1,!0,!0"}.get(
+                      kind, ")O(N," + json_str(name) + "," + value)
         k = rest.find(setter)
         if k < 0:
             out.add("value")
